@@ -10,6 +10,8 @@ def run(ctx, rep):
     fillrules.check_fill_queue(ctx, rep)
     fillrules.check_divide(ctx, rep, rules=('S-divide', None))
     pirules.check_endpoint_guards(ctx, rep, rule='S-nonzero')
+    # which segment is split where (and that segments meeting in a shared end point are left alone): the table of the splitting step
+    pirules.check_code(ctx, rep, rule='T-code')
     sweeprules.check_loop(ctx, rep)
     sweeprules.check_break(ctx, rep)
     sweeprules.check_comparator(ctx, rep)
